@@ -229,7 +229,13 @@ def fit_nsphere(points, prior=None):
 
     center_result, return_code = leastsq(residuals, guess, xtol=1e-8)
 
-    if return_code not in [1, 2, 3, 4]:
+    # MINPACK returns 1-4 when one of the requested tolerances was met and
+    # 6-8 when the iteration stopped because `ftol`, `xtol` or `gtol` can't
+    # be met in floating point, i.e. the result can't be improved: it is
+    # as much a stationary point as 1-4, for example when the initial guess
+    # already is the center of a symmetric point set up to round-off.
+    # Only improper input (0) and hitting the evaluation limit (5) fail.
+    if return_code not in [1, 2, 3, 4, 6, 7, 8]:
         raise ValueError("Least square fit failed!")
 
     radii = util.row_norm(points - center_result)
